@@ -147,6 +147,17 @@ def run(ctx):
     ctx.guard("table", "scalar64", lambda: check_tables(ctx, P))
     from . import C01
     ctx.guard("padding", "sha512", lambda: C01.check_standard_padding(ctx, P))
-    from . import C15
+    ctx.guard("length-field", "md", lambda: C01.check_length_fields(ctx, P))
+    from . import C15, C12, sc32, febounds
     ctx.guard("scalar", "scalar64", lambda: C15.check_scalar64(ctx, P))
-    ctx.not_decided += ["group law and fixed-base multiplication values", "Barrett reduction / multiply-add as numbers", "SHA-512 compression"]
+    # exchange() decodes the peer's public key with Fe::from_bytes (bit 255 = sign bit must be ignored), and the whole
+    # signing path exists twice: the 32-bit backend is decided on its own MIR (K2)
+    ctx.guard("decode", "fe64::from_bytes", lambda: C12.check_from_bytes64(ctx, P))
+    P2 = ctx.prog("K2")
+    ctx.guard("decode32", "fe32::from_bytes", lambda: sc32.check_decode32(ctx, P2))
+    ctx.guard("sc", "scalar32::reduce", lambda: sc32.check_scalar32(ctx, P2, "reduce"))
+    ctx.guard("sc", "scalar32::muladd", lambda: sc32.check_scalar32(ctx, P2, "muladd"))
+    ctx.guard("clamp", "ed25519/K2", lambda: check_clamp(ctx, P2))
+    ctx.guard("sign", "signature/K2", lambda: check_signature(ctx, P2, "ed25519::signature", "extended_secret(keypair_private(arg2))", "keypair_public(arg2)"))
+    ctx.guard("sign", "signature_extended/K2", lambda: check_signature(ctx, P2, "ed25519::signature_extended", "arg2", "extended_to_public(arg2)"))
+    ctx.not_decided += ["group law and fixed-base multiplication values", "scalar64 Barrett reduction / multiply-add as numbers (the scalar32 digit arithmetic is decided: congruence modulo L, bounds, digit decode / encode)", "SHA-512 compression"]
